@@ -241,6 +241,7 @@ def run(rep, tier_, rng):
     regimes = {}
     for c in calls.values():
         regimes[c["regime"]] = regimes.get(c["regime"], 0) + 1
+    insts, not_attempted = calcb.fit_budget(insts, max(30, (115 if q else 1100) - tgen))
     run_and_report(rep, insts, calls, tag="C42_%s" % tier_, params={"sentence_timeout": 60, "single_timeout": 80},
                    budget=max(30, (115 if q else 1100) - tgen), jobs=10,
                    rule="each evaluation = one call invertlaplace(F, t, method) of the current /repo code at mp.dps in {15,20,30(,50)}: "
@@ -249,7 +250,7 @@ def run(rep, tier_, rng):
                         "default restricted per method to what its docstring covers (see assumptions); distinct = distinct lemma statements; "
                         "non-trivial = error not exactly zero",
                    assumptions=ASSUMPTIONS,
-                   extra_cov={"regimes": regimes, "generation_wall_s": round(tgen, 1), "tolerance": "10^(3-dps/2) relative",
+                   extra_cov={"lemmas_not_attempted_for_time": not_attempted, "regimes": regimes, "generation_wall_s": round(tgen, 1), "tolerance": "10^(3-dps/2) relative",
                               "rint_lemmas": sum(1 for i in insts if i.meta.get("rint")), **stats})
 
 
